@@ -15,7 +15,8 @@
      hold content, and may fail at one chosen storage operation ([fa]);
    - time.Now().UTC().Format(RFC3339) is the parameter [now];
      the validation of a caller-supplied created value is the recogniser [rfc3339_ok]
-     (mirrors time.parseStrictRFC3339 step by step). *)
+     = time.Parse(time.RFC3339, _) (lenient mirror [rfc3339_gen false]) and the explicit
+     checks of validateRFC3339 translated from pack.go on every run. *)
 From Oras Require Import Base.Prelude Base.Regex Base.StrCheck Generated.GC19.
 
 Definition kv := (str * str)%type.
@@ -97,11 +98,14 @@ Definition lit (c : N) (s : str) : option str :=
 Fixpoint skip_digits (s : str) : str :=
   match s with c :: r => if is_digit c then skip_digits r else s | [] => [] end.
 
-(* The validation of the created annotation.
-   [strict = true]: time.Time.UnmarshalText, i.e. time.parseStrictRFC3339 (what
-   ensureAnnotationCreated calls since the fix recorded in known_findings.d/C19.json).
-   [strict = false]: time.Parse(time.RFC3339, _), the pre-fix call, which additionally takes
-   a one-digit hour, a comma before the fraction and zone offsets up to 24:60. *)
+(* Two recognisers, structurally.
+   [strict = false]: time.Parse(time.RFC3339, _) -- mirrors time.parse of go1.26.8 for that layout
+   (4-digit year, 2-digit fields except a 1-or-2-digit hour, fraction after '.' or ',', "Z" or
+   +hh:mm with hh <= 24 and mm <= 60, nothing after it, day-of-month check); compared with the real
+   time.Parse on every run (case kind L).
+   [strict = true]: the same with a two-digit hour, '.' only and offsets <= 23:59.  The model of
+   validateRFC3339 ([rfc3339_ok] below) is NOT this function: it is the lenient recogniser plus the
+   checks translated from pack.go; Proofs/PackTime.v proves the two equal. *)
 
 Definition is_nil (s : str) : bool := match s with [] => true | _ => false end.
 
